@@ -7,6 +7,7 @@ import (
 	"go/token"
 	"go/types"
 	"os"
+	"os/exec"
 	"path/filepath"
 	"sort"
 	"strings"
@@ -43,14 +44,47 @@ func loadProg(repo string, patterns []string, tags string) (*Prog, error) {
 		Mode:  packages.LoadSyntax | packages.NeedModule,
 		Dir:   repo,
 		Tests: false,
-		Env:   append(os.Environ(), "GOWORK=off", "GOFLAGS=-mod=mod", "GOPROXY=off", "GOSUMDB=off"),
+		Env:   append(os.Environ(), "GOWORK=off", "GOFLAGS=-mod=mod", "GOPROXY=off", "GOSUMDB=off", "GOTOOLCHAIN=local"),
+	}
+	// the go command that lists the packages must be at least the version go.mod names; the pre-installed 1.26.8 is
+	if _, err := os.Stat("/opt/veriftools/go1.26.8/bin/go"); err == nil {
+		if !strings.HasPrefix(os.Getenv("PATH"), "/opt/veriftools/go1.26.8/bin:") {
+			os.Setenv("PATH", "/opt/veriftools/go1.26.8/bin:"+os.Getenv("PATH")) // go/packages resolves "go" through this process's PATH
+		}
+		cfg.Env = append(cfg.Env, "PATH="+os.Getenv("PATH"))
 	}
 	// -trimpath makes export data cacheable across scratch copies of the tree (mutant runs, thorough tag sets)
 	cfg.BuildFlags = []string{"-trimpath"}
 	if tags != "" {
 		cfg.BuildFlags = append(cfg.BuildFlags, "-tags="+tags)
 	}
-	pkgs, err := packages.Load(cfg, patterns...)
+	// "deps:<main package>" patterns stand for the main-module packages in that binary's dependency closure under these tags
+	var expanded []string
+	for _, pat := range patterns {
+		if !strings.HasPrefix(pat, "deps:") {
+			expanded = append(expanded, pat)
+			continue
+		}
+		args := append([]string{"list", "-deps"}, cfg.BuildFlags...)
+		cmd := exec.Command("go", append(args, strings.TrimPrefix(pat, "deps:"))...)
+		cmd.Dir, cmd.Env = repo, cfg.Env
+		out, err := cmd.Output()
+		if err != nil {
+			msg := ""
+			if ee, ok := err.(*exec.ExitError); ok {
+				msg = string(ee.Stderr)
+			}
+			return nil, fmt.Errorf("go list -deps %s: %v %s", pat, err, msg)
+		}
+		for _, l := range strings.Split(string(out), "\n") {
+			if strings.HasPrefix(l, "istio.io/istio/") {
+				expanded = append(expanded, l)
+			}
+		}
+	}
+	sort.Strings(expanded)
+	expanded = compactStrings(expanded)
+	pkgs, err := packages.Load(cfg, expanded...)
 	if err != nil {
 		return nil, err
 	}
@@ -108,6 +142,16 @@ func loadProg(repo string, patterns []string, tags string) (*Prog, error) {
 	sort.Slice(p.AllFuncs, func(i, j int) bool { return fnKey(p.AllFuncs[i]) < fnKey(p.AllFuncs[j]) })
 	p.LoadSecs = time.Since(t0).Seconds()
 	return p, nil
+}
+
+func compactStrings(a []string) []string {
+	out := a[:0]
+	for i, x := range a {
+		if i == 0 || x != a[i-1] {
+			out = append(out, x)
+		}
+	}
+	return out
 }
 
 func fnKey(f *ssa.Function) string {
@@ -272,6 +316,7 @@ type Ob struct {
 	Pos       string `json:"pos"`
 	Verdict   string `json:"verdict"` // ok | violation | known-finding
 	Detail    string `json:"detail,omitempty"`
+	Config    string `json:"config,omitempty"` // load configuration (patterns + build tags) the obligation was evaluated under
 }
 
 type KnownFinding struct {
@@ -305,6 +350,8 @@ type Ctx struct {
 	NotDec   string
 	Assume   []string
 	ruleDocs map[string]string
+	cfg      string           // current load configuration
+	cfgs     []map[string]any // what was loaded per configuration
 }
 
 func (c *Ctx) Check(construct string, pos token.Pos, ok bool, detail string) {
@@ -332,7 +379,7 @@ func (c *Ctx) CheckAt(construct, pos string, ok bool, detail string) {
 			}
 		}
 	}
-	c.Obs = append(c.Obs, Ob{Rule: c.curRule, Construct: construct, Pos: pos, Verdict: v, Detail: detail})
+	c.Obs = append(c.Obs, Ob{Rule: c.curRule, Construct: construct, Pos: pos, Verdict: v, Detail: detail, Config: c.cfg})
 }
 
 // Floor asserts that the current rule has evaluated at least n obligations (guards against vacuity).
@@ -379,11 +426,13 @@ type Evidence struct {
 	Violations  int            `json:"violations"`
 }
 
-func (c *Ctx) finish(verif string, seed int, wall float64, pd PropDef) int {
-	// floors
+// endConfig closes one load configuration: vacuity floors are checked per configuration.
+func (c *Ctx) endConfig(pd PropDef) {
 	counts := map[string]int{}
 	for _, o := range c.Obs {
-		counts[o.Rule]++
+		if o.Config == c.cfg {
+			counts[o.Rule]++
+		}
 	}
 	rules := make([]string, 0, len(c.floors))
 	for r := range c.floors {
@@ -402,14 +451,32 @@ func (c *Ctx) finish(verif string, seed int, wall float64, pd PropDef) int {
 			c.CheckAt("floor", "-", false, "rule produced no obligations")
 		}
 	}
+	c.cfgs = append(c.cfgs, map[string]any{"config": c.cfg, "load_patterns": c.P.Patterns, "build_tags": c.P.Tags, "packages": len(c.P.Pkgs),
+		"functions_analysed": len(c.P.AllFuncs), "load_s": c.P.LoadSecs})
+}
+
+func (c *Ctx) finish(verif string, seed int, wall float64, pd PropDef) int {
+	counts := map[string]int{}
+	for _, o := range c.Obs {
+		counts[o.Rule]++
+	}
 	outDir := filepath.Join(verif, "out", c.Prop)
 	os.RemoveAll(outDir)
 	os.MkdirAll(outDir, 0o755)
 	nviol, nknown, nok := 0, 0, 0
 	var lines []string
 	distinct := map[string]bool{}
+	reported := map[string]bool{}
 	for _, o := range c.Obs {
 		distinct[o.Rule+"|"+o.Construct] = true
+		if o.Verdict != "ok" {
+			// the same construct failing under several load configurations is one report
+			k := o.Rule + "|" + o.Construct + "|" + o.Pos
+			if reported[k] {
+				continue
+			}
+			reported[k] = true
+		}
 		switch o.Verdict {
 		case "ok":
 			nok++
@@ -423,7 +490,7 @@ func (c *Ctx) finish(verif string, seed int, wall float64, pd PropDef) int {
 				"how_to_replay": fmt.Sprintf("cd %s && ./run.sh %s %s   # static check: re-run against the current /repo tree; the report names the construct", verif, c.Prop, c.Tier)}
 			b, _ := json.MarshalIndent(rec, "", " ")
 			os.WriteFile(path, b, 0o644)
-			lines = append(lines, fmt.Sprintf("  violation: rule=%s construct=%s at %s: %s", o.Rule, o.Construct, o.Pos, o.Detail))
+			lines = append(lines, fmt.Sprintf("  violation: rule=%s construct=%s at %s: %s [config %s]", o.Rule, o.Construct, o.Pos, o.Detail, o.Config))
 			lines = append(lines, fmt.Sprintf("VIOLATION property=%s replay=%s", c.Prop, path))
 		}
 	}
@@ -459,11 +526,9 @@ func (c *Ctx) finish(verif string, seed int, wall float64, pd PropDef) int {
 		"per_rule_obligations": ruleCounts,
 		"rule_docs":           docs,
 		"instance_floor":      c.floors,
-		"packages":            len(c.P.Pkgs),
-		"functions_analysed":  len(c.P.AllFuncs),
-		"load_patterns":       c.P.Patterns,
-		"build_tags":          c.P.Tags,
-		"load_s":              c.P.LoadSecs,
+		"packages":            c.cfgs[0]["packages"],
+		"functions_analysed":  c.cfgs[0]["functions_analysed"],
+		"configurations":      c.cfgs,
 		"stats":               c.Stats,
 		"info":                c.Info,
 		"checker_cmd":         fmt.Sprintf("./run.sh %s %s", c.Prop, c.Tier),
@@ -483,8 +548,11 @@ func (c *Ctx) finish(verif string, seed int, wall float64, pd PropDef) int {
 		fmt.Println("cannot write evidence:", err)
 		return 2
 	}
-	fmt.Printf("property=%s tier=%s packages=%d functions=%d obligations=%d ok=%d known=%d violations=%d wall=%.1fs\n",
-		c.Prop, c.Tier, len(c.P.Pkgs), len(c.P.AllFuncs), len(c.Obs), nok, nknown, nviol, wall)
+	fmt.Printf("property=%s tier=%s packages=%v functions=%v obligations=%d ok=%d known=%d violations=%d wall=%.1fs\n",
+		c.Prop, c.Tier, c.cfgs[0]["packages"], c.cfgs[0]["functions_analysed"], len(c.Obs), nok, nknown, nviol, wall)
+	for _, cf := range c.cfgs {
+		fmt.Printf("  config %v: patterns=%v tags=%q packages=%v functions=%v\n", cf["config"], cf["load_patterns"], cf["build_tags"], cf["packages"], cf["functions_analysed"])
+	}
 	rs := make([]string, 0, len(counts))
 	for r := range counts {
 		rs = append(rs, r)
